@@ -26,6 +26,7 @@ SCHEMA = [
     'create type U { create required property name -> str { create constraint exclusive; }; }',
     'create function fn_insert() -> T { set volatility := "Modifying"; '
     'using (insert T { n := "f" }) }',
+    'create global cur -> int64',
     'create function fn_update(x: str) -> set of T { set volatility := "Modifying"; '
     'using (update T filter .n = x set { n := "g" }) }',
 ]
@@ -129,9 +130,24 @@ NEEDS = {
 }
 
 
+def render_set_global(leaf, ctx):
+    L = LEAF[leaf]
+    if ctx == 'func_arg':
+        return f'set global cur := count({L})'
+    if ctx == 'with_binding':
+        return f'set global cur := (with x := {L} select count(x))'
+    if ctx == 'for_body':
+        return f'set global cur := count((for i in {{1, 2}} union {L}))'
+    if ctx == 'if_branch':
+        return f'set global cur := count({L}) if true else 0'
+    raise ValueError(ctx)
+
+
 def render(stmt):
     if stmt['kind'] == 'query':
         return [], render_query(stmt['leaf'], stmt['ctx'])
+    if stmt['kind'] == 'set_global':
+        return [], render_set_global(stmt['leaf'], stmt['ctx'])
     if stmt['kind'] in NEEDS:
         return NEEDS[stmt['kind']]
     return [], OTHER[stmt['kind']]
